@@ -271,6 +271,163 @@ theorem migrate_tbl (g : Globals) : ∀ (ts ts' : List Table) (out : List (List 
             rfl
           · rw [List.flatten_cons, List.filterMap_append, hall']
 
+end Migration
+
+-- ---------------------------------------------------------------------------------------------------------------
+-- the down direction
+
+theorem idxDown_noTbl (g : Globals) (i : Index) (tb : String) (r : List Stmt) (h : i.migrationDown g tb = .ok r) :
+    ∀ s ∈ r, tblStmt s = none := by
+  unfold Index.migrationDown at h
+  cases ha : i.action <;> rw [ha] at h <;> simp only at h
+  · cases Except.ok.inj h; intro s hs; cases hs
+  · exact idxUp_noTbl g _ tb r h
+  · exact idxUp_noTbl g _ tb r h
+  · cases hp : i.prev with
+    | none => rw [hp] at h; exact idxUp_noTbl g i tb r h
+    | some p => rw [hp] at h; exact idxUp_noTbl g _ tb r h
+  · cases Except.ok.inj h; intro s hs; cases hs
+  · exact idxUp_noTbl g _ tb r h
+
+namespace Table
+
+theorem walkIdx_noTbl_down (g : Globals) (tb : String) (dc : List String) : ∀ (idxs : List Index) (ss : List Stmt),
+    walkIdx g tb false dc idxs = .ok ss → ∀ s ∈ ss, tblStmt s = none := by
+  intro idxs
+  induction idxs with
+  | nil => intro ss h s hs; unfold walkIdx at h; cases Except.ok.inj h; cases hs
+  | cons i r ih =>
+    intro ss h s hs
+    unfold walkIdx at h
+    obtain ⟨a, ha, h⟩ := bind_ok h
+    obtain ⟨b, hb, h⟩ := bind_ok h
+    have := pure_ok h; subst this
+    rcases List.mem_append.mp hs with h1 | h1
+    · by_cases hcnd : (i.action != .none && (i.action != (if false then Action.remove else Action.add) || !idxSuppressed i dc)) = true
+      · rw [if_pos hcnd] at ha
+        simp only [Bool.false_eq_true, if_false] at ha
+        exact idxDown_noTbl g i tb a ha s h1
+      · rw [if_neg hcnd] at ha
+        have := pure_ok ha; subst this; cases h1
+    · exact ih b hb s h1
+
+theorem indexDown_noTbl (g : Globals) (t : Table) (dc : List String) (ss : List Stmt)
+    (h : t.migrationIndexDown g dc = .ok ss) : ∀ s ∈ ss, tblStmt s = none := by
+  unfold migrationIndexDown at h
+  cases ha : t.action <;> rw [ha] at h <;> simp only at h
+  · exact walkIdx_noTbl_down g t.name dc t.idxs ss h
+  · exact indexUp_noTbl g _ dc ss h
+  · exact indexUp_noTbl g _ dc ss h
+  all_goals (cases Except.ok.inj h; intro s hs; cases hs)
+
+theorem fkDown_noTbl (f : ForeignKey) (tb : String) : ∀ s ∈ f.migrationDown tb, tblStmt s = none := by
+  intro s hs
+  unfold ForeignKey.migrationDown at hs
+  cases ha : f.action <;> rw [ha] at hs <;> simp only at hs
+  · cases hs
+  · exact fkUp_noTbl _ tb s hs
+  · exact fkUp_noTbl _ tb s hs
+  · cases hs
+  · cases hs
+  · cases hs
+
+theorem foreignKeyDown_noTbl (t : Table) (dc : List String) : ∀ s ∈ t.migrationForeignKeyDown dc, tblStmt s = none := by
+  intro s hs
+  unfold migrationForeignKeyDown at hs
+  cases ha : t.action <;> rw [ha] at hs <;> simp only at hs
+  · unfold walkFk at hs
+    obtain ⟨f, _, hf⟩ := List.mem_flatMap.mp hs
+    by_cases hcnd : (f.action != .none && (f.action != (if false then Action.remove else Action.add) || !dc.contains f.column)) = true
+    · rw [if_pos hcnd] at hf
+      simp only [Bool.false_eq_true, if_false] at hf
+      exact fkDown_noTbl f t.name s hf
+    · rw [if_neg hcnd] at hf
+      cases hf
+  · exact foreignKeyUp_noTbl _ dc s hs
+  · exact foreignKeyUp_noTbl _ dc s hs
+  all_goals cases hs
+
+theorem columnDown_tbl (g : Globals) (t : Table) (cs : List Stmt) (dc : List String)
+    (h : t.migrationColumnDown g = .ok (cs, dc)) :
+    cs.filterMap tblStmt = match t.action with
+      | .add => [IStmt.drop t.name]
+      | .remove => [IStmt.create t.name]
+      | _ => [] := by
+  unfold migrationColumnDown at h
+  cases ha : t.action <;> rw [ha] at h <;> simp only at h
+  · have := Except.ok.inj h
+    have hcs : cs = (walkCols g t.name false [] t.cols).1 := (congrArg Prod.fst this).symm
+    rw [hcs, List.filterMap_eq_nil_iff]
+    exact walkCols_noTbl g t.name false t.cols []
+  · exact columnUp_tbl g { t with action := .remove } cs dc h
+  · exact columnUp_tbl g { t with action := .add } cs dc h
+  all_goals (have := Except.ok.inj h; have hcs : cs = [] := (congrArg Prod.fst this).symm; rw [hcs]; rfl)
+
+end Table
+
+/-- the table-level statement of a table record on the way down -/
+def tblOutDown (t : Table) : List (IStmt String) :=
+  match t.action with
+  | .add => [.drop t.name]
+  | .remove => [.create t.name]
+  | _ => []
+
+namespace Migration
+
+theorem migrate_tbl_down (g : Globals) : ∀ (ts ts' : List Table) (out : List (List Stmt)),
+    (∀ t ∈ ts, t.name ≠ defaultMigrationTable ∧ t.arrange = .ok t) → migrate g false ts = .ok (ts', out) →
+    out.flatten.filterMap tblStmt = ts.flatMap tblOutDown := by
+  intro ts
+  induction ts with
+  | nil =>
+    intro ts' out _ h
+    unfold migrate at h
+    have := Except.ok.inj h
+    have ho : out = [] := (congrArg Prod.snd this).symm
+    rw [ho]; rfl
+  | cons t r ih =>
+    intro ts' out hall h
+    obtain ⟨hn, hst⟩ := hall t (by simp)
+    unfold migrate at h
+    have hne : (t.name == defaultMigrationTable) = false := by simpa using hn
+    simp only [hne, Bool.false_eq_true, if_false, hst, bind, Except.bind] at h
+    cases hc : t.migrationColumnDown g with
+    | error e => rw [hc] at h; cases h
+    | ok cres =>
+      obtain ⟨cs, dc⟩ := cres
+      rw [hc] at h
+      simp only at h
+      cases hi : t.migrationIndexDown g dc with
+      | error e => rw [hi] at h; cases h
+      | ok is =>
+        rw [hi] at h
+        simp only at h
+        cases hr : migrate g false r with
+        | error e => rw [hr] at h; cases h
+        | ok res =>
+          obtain ⟨ts1, out1⟩ := res
+          rw [hr] at h
+          simp only [pure, Except.pure] at h
+          have := Except.ok.inj h
+          have ho : out = if (cs ++ is ++ t.migrationForeignKeyDown dc).isEmpty then out1
+              else (cs ++ is ++ t.migrationForeignKeyDown dc) :: out1 := (congrArg Prod.snd this).symm
+          have ihr := ih ts1 out1 (fun x hx => hall x (by simp [hx])) hr
+          have hall' : (cs ++ is ++ t.migrationForeignKeyDown dc).filterMap tblStmt = tblOutDown t := by
+            rw [List.filterMap_append, List.filterMap_append, Table.columnDown_tbl g t cs dc hc]
+            have h1 : is.filterMap tblStmt = [] := by
+              rw [List.filterMap_eq_nil_iff]; exact Table.indexDown_noTbl g t dc is hi
+            have h2 : (t.migrationForeignKeyDown dc).filterMap tblStmt = [] := by
+              rw [List.filterMap_eq_nil_iff]; exact Table.foreignKeyDown_noTbl t dc
+            rw [h1, h2, List.append_nil, List.append_nil]
+            rfl
+          rw [ho, List.flatMap_cons, ← ihr]
+          split
+          · rename_i hemp
+            have : cs ++ is ++ t.migrationForeignKeyDown dc = [] := by simpa using hemp
+            rw [← hall', this]
+            rfl
+          · rw [List.flatten_cons, List.filterMap_append, hall']
+
 /-- first table loop, table-level view: a table the old side has gets no table statement, the others are created -/
 theorem diffTables1_tbl (d : Dialect) (old : Migration) (hold : old.Inv) (hoa : ∀ ot ∈ old.tables, ot.action = .add)
     :
@@ -298,6 +455,52 @@ theorem diffTables1_tbl (d : Dialect) (old : Migration) (hold : old.Inv) (hoa : 
         have : (!old.tblNames.contains t.name) = true := by simpa using hnot
         rw [this]
         exact ⟨by simp [tblOut, hta], rfl⟩
+      | some j =>
+        rw [hg] at hc
+        simp only at hc
+        obtain ⟨ot, hot, hc⟩ := bind_ok hc
+        have hotm : ot ∈ old.tables := List.mem_of_getElem? (getIdx_ok hot)
+        have hin : t.name ∈ old.tblNames := by
+          have := (hold.tbls.get t.name j).mp hg
+          exact List.mem_of_getElem? this
+        have hcont : (!old.tblNames.contains t.name) = false := by simpa using hin
+        rw [hcont]
+        have hex : ot.exists_ = true := by unfold Table.exists_; rw [hoa ot hotm]; rfl
+        rw [if_pos hex] at hc
+        obtain ⟨t1, h1, hc⟩ := bind_ok hc
+        have := pure_ok hc; subst this
+        exact ⟨rfl, hdn t (by simp) ot hotm t1 h1⟩
+    refine ⟨?_, by simp only [List.map_cons, hstep.2, ih2]⟩
+    rw [List.flatMap_cons, ih1, hstep.1, List.map_cons, List.filter_cons]
+    split <;> rfl
+
+/-- … and on the way down: the others are dropped -/
+theorem diffTables1_tbl_down (d : Dialect) (old : Migration) (hold : old.Inv) (hoa : ∀ ot ∈ old.tables, ot.action = .add)
+    :
+    ∀ (ts ts' : List Table), (∀ t ∈ ts, t.action = .add) →
+      (∀ t ∈ ts, ∀ ot ∈ old.tables, ∀ t1, t.diff d ot = .ok t1 → t1.name = t.name) → diffTables1 d old ts = .ok ts' →
+      ts'.flatMap tblOutDown = ((ts.map (·.name)).filter (fun n => !old.tblNames.contains n)).map (IStmt.drop (α := String)) ∧
+      ts'.map (·.name) = ts.map (·.name) := by
+  intro ts
+  induction ts with
+  | nil => intro ts' _ _ hs; unfold diffTables1 at hs; have := pure_ok hs; subst this; exact ⟨rfl, rfl⟩
+  | cons t rest ih =>
+    intro ts' ha hdn hs
+    unfold diffTables1 at hs
+    obtain ⟨t', hc, hs⟩ := bind_ok hs
+    obtain ⟨rest', hr, hs⟩ := bind_ok hs
+    have := pure_ok hs; subst this
+    obtain ⟨ih1, ih2⟩ := ih rest' (fun x hx => ha x (by simp [hx])) (fun x hx => hdn x (by simp [hx])) hr
+    have hta := ha t (by simp)
+    have hstep : tblOutDown t' = (if !old.tblNames.contains t.name then [(IStmt.drop (α := String)) t.name] else []) ∧ t'.name = t.name := by
+      cases hg : old.tblIdx.get? t.name with
+      | none =>
+        rw [hg] at hc
+        have := pure_ok hc; subst this
+        have hnot : t.name ∉ old.tblNames := (hold.tbls.get?_none_iff t.name).mp hg
+        have : (!old.tblNames.contains t.name) = true := by simpa using hnot
+        rw [this]
+        exact ⟨by simp [tblOutDown, hta], rfl⟩
       | some j =>
         rw [hg] at hc
         simp only at hc
@@ -382,10 +585,12 @@ theorem tables_end_to_end (g : Globals) (hg : g.dialect = .mysql) (rc : Bool) (o
     (ho : old.all Stmt.elemSafe = true) (hn : new.all Stmt.elemSafe = true)
     (heo : execAll rc [] old = some dbO) (hen : execAll rc [] new = some dbN)
     (hdef : ∀ tb ∈ dbO ++ dbN, tb.name ≠ Migration.defaultMigrationTable) :
-    ∃ d out, loadAndDiff g old new = .ok d ∧ d.migrationUp g = .ok (d, out) ∧
+    ∃ d out outD, loadAndDiff g old new = .ok d ∧ d.migrationUp g = .ok (d, out) ∧ d.migrationDown g = .ok (d, outD) ∧
       out.flatten.filterMap tblStmt = emitKeep (dbN.map (·.name)) (dbO.map (·.name)) ∧
-      ∃ R, execAll (dbO.map (·.name)) (out.flatten.filterMap tblStmt) = some R ∧ R.Perm (dbN.map (·.name)) := by
-  obtain ⟨d, outU, _, hd, hU, _⟩ := diff_print_total g hg rc old new dbO dbN ho hn heo hen
+      (∃ R, execAll (dbO.map (·.name)) (out.flatten.filterMap tblStmt) = some R ∧ R.Perm (dbN.map (·.name))) ∧
+      outD.flatten.filterMap tblStmt = emitDownKeep (dbN.map (·.name)) (dbO.map (·.name)) ∧
+      (∃ R, execAll (dbN.map (·.name)) (outD.flatten.filterMap tblStmt) = some R ∧ R.Perm (dbO.map (·.name))) := by
+  obtain ⟨d, outU, outD, hd, hU, hD⟩ := diff_print_total g hg rc old new dbO dbN ho hn heo hen
   obtain ⟨mo, hmo', hro, heo'⟩ := ReaderMysql.run_elems rc old {} [] dbO Rel.empty ElemsOK.empty ho heo
   obtain ⟨mn, hmn', hrn, hen'⟩ := ReaderMysql.run_elems rc new {} [] dbN Rel.empty ElemsOK.empty hn hen
   have e1 : readScript g {} old = .ok mo := by unfold readScript; rw [hg]; exact hmo'
@@ -463,13 +668,46 @@ theorem tables_end_to_end (g : Globals) (hg : g.dialect = .mysql) (rc : Bool) (o
           · rw [List.flatMap_cons, List.map_cons, ih]; rfl
           · exact ih
       exact this mo.tables
-  refine ⟨d, outU, hd, hU, hemit, ?_⟩
-  rw [hemit]
-  refine emitKeep_correct (dbN.map (·.name)) (dbO.map (·.name)) ?_ ?_ ?_
-  · show ((dbN.map (·.name)).map id).Nodup
+  -- the down direction
+  obtain ⟨htbl1d, _⟩ := Migration.diffTables1_tbl_down g.dialect mo hro.inv (fun ot hot => (hro.fresh ot hot).2) mn.tables ts
+    (fun t ht => (hrn.fresh t ht).2) hdn h1
+  have hmigD : ∃ ts', Migration.migrate g false d.tables = .ok (ts', outD) := by
+    unfold Migration.migrationDown at hD
+    obtain ⟨⟨ts', o'⟩, hm, hD⟩ := bind_ok hD
+    have := pure_ok hD
+    have ho : o' = outD := congrArg Prod.snd this
+    exact ⟨ts', by rw [← ho]; exact hm⟩
+  obtain ⟨tsD, hmigD⟩ := hmigD
+  have hprojD := Migration.migrate_tbl_down g d.tables tsD outD hall hmigD
+  have hemitD : outD.flatten.filterMap tblStmt = emitDownKeep (dbN.map (·.name)) (dbO.map (·.name)) := by
+    rw [hprojD, happ, List.flatMap_append, htbl1d, hNn, hOn]
+    unfold emitDownKeep
+    congr 1
+    · simp [names, Named.name]
+    · rw [List.flatMap_map]
+      simp only [names, Named.name, List.map_id, id]
+      have : ∀ l : List Table, (l.filter (fun ot => !mn.tblNames.contains ot.name)).flatMap
+            (fun ot => tblOutDown { ot with action := .remove }) =
+          ((l.map (·.name)).filter (fun o => !mn.tblNames.contains o)).map (fun o => IStmt.create o) := by
+        intro l
+        induction l with
+        | nil => rfl
+        | cons a r ih =>
+          rw [List.filter_cons, List.map_cons, List.filter_cons]
+          split
+          · rw [List.flatMap_cons, List.map_cons, ih]; rfl
+          · exact ih
+      exact this mo.tables
+  have hndN : (names (dbN.map (·.name))).Nodup := by
+    show ((dbN.map (·.name)).map id).Nodup
     rw [List.map_id]; exact hrn.nodup
-  · show ((dbO.map (·.name)).map id).Nodup
+  have hndO : (names (dbO.map (·.name))).Nodup := by
+    show ((dbO.map (·.name)).map id).Nodup
     rw [List.map_id]; exact hro.nodup
-  · intro s _ o _ h; exact h
+  have hnr : ∀ s ∈ dbN.map (·.name), ∀ o ∈ dbO.map (·.name), Named.name s = Named.name o → s = o :=
+    fun s _ o _ h => h
+  refine ⟨d, outU, outD, hd, hU, hD, hemit, ?_, hemitD, ?_⟩
+  · rw [hemit]; exact emitKeep_correct _ _ hndN hndO hnr
+  · rw [hemitD]; exact emitDownKeep_correct _ _ hndN hndO hnr
 
 end Sqlize
